@@ -313,6 +313,7 @@ func (w *World) VerifyFunc(fn *ssa.Function) *Ctx {
 	if ct.HasAssigns && !ct.NoFrame {
 		w.frameObligations(c, f, ct)
 	}
+	c.emitAxioms()
 	// cover: every return reachable (vacuity guard)
 	if len(f.rets) > 0 {
 		var gs []string
@@ -406,4 +407,104 @@ func (w *World) contractFuncs() []*ssa.Function {
 	}
 	sort.Slice(out, func(i, j int) bool { return funcKey(out[i]) < funcKey(out[j]) })
 	return out
+}
+
+// exprUFs lists the uninterpreted functions an expression mentions.
+func (w *World) exprUFs(e Expr, out map[string]bool) {
+	switch n := e.(type) {
+	case *EBin:
+		w.exprUFs(n.L, out)
+		w.exprUFs(n.R, out)
+	case *EUn:
+		w.exprUFs(n.X, out)
+	case *ECond:
+		w.exprUFs(n.C, out)
+		w.exprUFs(n.A, out)
+		w.exprUFs(n.B, out)
+	case *EQuant:
+		w.exprUFs(n.Body, out)
+	case *ESel:
+		w.exprUFs(n.X, out)
+	case *EIndex:
+		w.exprUFs(n.X, out)
+		w.exprUFs(n.I, out)
+	case *ESlice:
+		w.exprUFs(n.X, out)
+		w.exprUFs(n.Lo, out)
+		w.exprUFs(n.Hi, out)
+	case *ECall:
+		if id, ok := n.Fun.(*EIdent); ok {
+			if _, isUF := w.Specs.UFs[id.Name]; isUF {
+				out[id.Name] = true
+			}
+			if id.Name == "mkbytes" || id.Name == "bytes" {
+				out["mkbytes"] = true
+			}
+			if d, isDef := w.Specs.Defs[id.Name]; isDef {
+				w.exprUFs(d.Body, out)
+			}
+		}
+		for _, a := range n.Args {
+			w.exprUFs(a, out)
+		}
+	}
+}
+
+// emitAxioms adds the definitional axioms of every spec function the
+// context uses (each is listed in the evidence as an assumption).
+func (c *Ctx) emitAxioms() {
+	w := c.W
+	emitted := map[string]bool{}
+	for changed := true; changed; {
+		changed = false
+		for _, ax := range w.Specs.Axioms {
+			if emitted[ax.Name] {
+				continue
+			}
+			ufs := map[string]bool{}
+			w.exprUFs(ax.E, ufs)
+			// an axiom defines user-declared spec functions: it is needed only
+			// where all of those it mentions occur
+			trigger := false
+			for u := range ufs {
+				if u == "mkbytes" {
+					continue
+				}
+				if !c.usedUF[u] {
+					trigger = false
+					break
+				}
+				trigger = true
+			}
+			if !trigger {
+				continue
+			}
+			emitted[ax.Name] = true
+			env := &SpecEnv{c: c, vars: map[string]Val{}, bound: map[string]bool{}, cur: &State{H: map[string]string{}}, old: &State{H: map[string]string{}}}
+			if c.Fn != nil {
+				f := c.newFrame(c.Fn, false)
+				env.f = f
+				env.pkg = c.Fn.Pkg
+				if env.pkg == nil {
+					p := c.Fn
+					for p.Parent() != nil {
+						p = p.Parent()
+					}
+					env.pkg = p.Pkg
+				}
+			}
+			before := len(c.Log)
+			t, err := env.boolTerm(ax.E)
+			extra := append([]string{}, c.Log[before:]...)
+			c.Log = c.Log[:before]
+			if err != nil {
+				c.note("axiom %s not usable in this mode: %v", ax.Name, err)
+				continue
+			}
+			c.Decls = append(c.Decls, extra...)
+			c.Decls = append(c.Decls, "(assert "+t+")")
+			c.axiomsUsed = append(c.axiomsUsed, ax.Name)
+			changed = true
+		}
+	}
 }
